@@ -110,6 +110,7 @@ Proof. vm_compute. reflexivity. Qed.
             e = rng.choice([o for o in ops if o[0] == "equals"]); ops.append(eq(e[1], e[4]))                             # re-declare an existing pair
         for _ in range(rng.randint(2, 5)): ops.append(q())
         return ops
+    check_all = set()
     # a family declared redundantly with a rounded figure (x = 2 m, m = 5 z and x = 4 n, n = 1.25 o, o = 2.002 z: x is 10 z or 10.01 z):
     # which route x -> z takes is the library's choice, but the same choice whatever was converted before (fixed corpus)
     def fam(earlier):
@@ -119,6 +120,13 @@ Proof. vm_compute. reflexivity. Qed.
         for a, b in earlier: ops.append(["query", "in_unit", ["int", "1", "1"], a, 1, b, 1])
         ops += [["query", "in_unit", ["int", "1", "1"], 0, 1, 4, 1], ["query", "in_unit", ["int", "1", "1"], 0, 1, 4, 1]]
         return ops
+    def overflow_history():
+        # Big = 1e160 Mid, Mid = 2 Small: Big^2 -> Small^2 overflows inside the search (in every process); Mid -> Small is 2 whatever came before
+        big = ["float", str(10**160), "1"]
+        ops = [["unit", "length"], ["unit", "length"], ["unit", "length"], ["equals", 0, 1, big, 1, 1], ["equals", 1, 1, ["int", "2", "1"], 2, 1]]
+        return ops + [["query", "in_unit", ["int", "1", "1"], 0, 2, 2, 2], ["query", "in_unit", ["int", "3", "1"], 1, 1, 2, 1], ["query", "in_unit", ["int", "3", "1"], 1, 1, 2, 1],
+                      ["query", "in_unit", ["int", "1", "1"], 0, 3, 2, 3], ["query", "in_unit", ["int", "5", "1"], 2, 1, 1, 1]]
+    hists.append(overflow_history()); check_all.add(len(hists) - 1)
     for earlier in ([], [(0, 4)], [(0, 5), (5, 4)], [(4, 0)], [(1, 4)], [(2, 1), (1, 4), (4, 5), (3, 4)], [(3, 4), (2, 4)], [(0, 3)], [(2, 4), (0, 1)]):
         hists.append(fam(earlier))
     # scales with a zero point (translate) reached through a base unit, converted directly, inside compound units (per-degree) and from
@@ -136,7 +144,6 @@ Proof. vm_compute. reflexivity. Qed.
             # a conversion tried from the second thread before its equivalence is declared, declared by the main thread, tried again
             ops += [["unit", "length"], ["tquery", m_(1), 5, 1, 2, 1], ["equals", 5, 1, m_(2), 2, 1], ["tquery", m_(1), 5, 1, 2, 1], ["query", "in_unit", m_(1), 5, 1, 2, 1], ["tquery", m_(1), 5, 1, 2, 1]]
         return ops + seq
-    check_all = set()
     for k_ in range(10 if c.tier == "quick" else 80):
         hists.append(scale_history(c.rng, threaded=(k_ % 2 == 1))); check_all.add(len(hists) - 1)
     for _ in range(40 if c.tier == "quick" else 500):
